@@ -47,7 +47,7 @@ def eval_tls(case, rng):
     spec = tlssynth.Spec(version=v, suite=code, app=[("c", rng.randbytes(20)), ("s", rng.randbytes(30))])
     spec.resumed = rng.random() < 0.3
     spec.etm = rng.random() < 0.3
-    spec.hs_secrets = rng.random() < 0.8
+    spec.hs_secrets = rng.choice([True, True, True, False, "client", "server"])
     spec.sid_len = rng.choice([0, 32, 7])
     spec.group_server_flight = rng.choice([(1, 1, 1, 1), (4,), (2, 2)])
     conn = tlssynth.build_conn(spec, rng)
@@ -56,7 +56,7 @@ def eval_tls(case, rng):
     items = scene.stamp(scene.merge([fl], rng, "concat"), rng)
     mon = monitors.TlsStateMonitor()
     res, files, argv = e2e.run_capture(scene.capture(items), scene.keylog_text([fl], rng), child_setup=mon.install)
-    out = {"cls": ["tls", suites.VNAME[v], f"{code:04X}", "hs" if spec.hs_secrets else "nohs"], "tags": [f"tls:{suites.VNAME[v]}:{p['mode']}"],
+    out = {"cls": ["tls", suites.VNAME[v], f"{code:04X}", "hs-" + str(spec.hs_secrets)], "tags": [f"tls:{suites.VNAME[v]}:{p['mode']}"],
            "sample": {"case": case["id"], "suite": suites.REGISTRY[code], "version": suites.VNAME[v], "client_random": conn.client_random.hex()}}
     fail = e2e.run_failed(res)
     if fail:
@@ -72,7 +72,7 @@ def eval_tls(case, rng):
         for side, c in (("client", "c"), ("server", "s")):
             n += cmp(f"{side} application key", e.get(f"{side}_application_key"), rk[f"{side}_app"][0], msgs)
             n += cmp(f"{side} application iv", e.get(f"{side}_application_iv"), rk[f"{side}_app"][1], msgs)
-            if spec.hs_secrets:
+            if spec.hs_secrets is True or spec.hs_secrets == side:
                 n += cmp(f"{side} handshake key", e.get(f"{side}_handshake_key"), rk[f"{side}_hs"][0], msgs)
                 n += cmp(f"{side} handshake iv", e.get(f"{side}_handshake_iv"), rk[f"{side}_hs"][1], msgs)
     else:
